@@ -369,6 +369,8 @@ func TimeNode(t time.Time, r Ref) *jsonx.Node {
 		return jsonx.S(t.Format(HostileLayout))
 	case "plainlayout":
 		return jsonx.S(t.Format(PlainLayout))
+	case "emptylayout":
+		return jsonx.S("")
 	}
 	return I64(t.UnixNano())
 }
@@ -699,6 +701,16 @@ func Leaves(full bool) []*Spec {
 	npe := fixed("error:nil-pointer", func(k string) zapcore.Field { return zap.NamedError(k, nilPE) }, jsonx.S("<nil>"))
 	npe.Fault = true
 	add(npe)
+	// a nil pointer whose methods tolerate the nil receiver is an ordinary error value: its Error() text is the value
+	add(fixed("error:nil-pointer-with-nil-safe-Error()", func(k string) zapcore.Field { return zap.NamedError(k, (*safeNilErr)(nil)) }, jsonx.S("not found (nil receiver)")))
+	add(leaf("error:group-with-nil-safe-nil-pointer-member", func(k string) zapcore.Field {
+		return zap.NamedError(k, groupErr{[]error{(*safeNilErr)(nil), errors.New("ok2")}})
+	}, func(k string, r Ref) []jsonx.Member {
+		return []jsonx.Member{{Key: k, Val: jsonx.S("group failed")}, {Key: k + "Causes", Val: jsonx.A(
+			jsonx.O().Add("error", jsonx.S("not found (nil receiver)")), jsonx.O().Add("error", jsonx.S("ok2")))}}
+	}))
+	add(fixed("errors:nil-safe-nil-pointer-element", func(k string) zapcore.Field { return zap.Errors(k, []error{(*safeNilErr)(nil)}) },
+		jsonx.A(jsonx.O().Add("error", jsonx.S("not found (nil receiver)")))))
 	gp := leaf("error:group-Errors()-panics", func(k string) zapcore.Field { return zap.NamedError(k, groupPanics{}) }, func(k string, r Ref) []jsonx.Member {
 		return []jsonx.Member{{Key: k, Val: jsonx.S("group")}, {Key: k + "Error", Val: jsonx.Containing("errors boom")}}
 	})
@@ -819,6 +831,16 @@ func decodeRune(s string) (rune, int) {
 type derefErrX struct{ host string }
 
 func (e *derefErrX) Error() string { return "lookup " + e.host } // nil receiver: nil dereference
+
+// safeNilErr: Error() works on a nil receiver.
+type safeNilErr struct{ what string }
+
+func (e *safeNilErr) Error() string {
+	if e == nil {
+		return "not found (nil receiver)"
+	}
+	return e.what
+}
 
 type boomErrX struct{}
 
